@@ -1,0 +1,259 @@
+//go:build verif
+
+package v0
+
+// Add-only accessors for the /verif correspondence harness (build tag `verif`), property C13.
+// They let an external program drive one BlockPool / BlockchainReactor synchronously: the pool is
+// marked running without its makeRequestersRoutine, requesters are created without their
+// requestRoutine, and the three transitions of that routine (peer picked, redo read, retry timer)
+// are offered as calls that use the real sub-functions (pickIncrAvailablePeer, reset, redoCh).
+// The processing branch is the real poolRoutine, run for a bounded time. Nothing here changes
+// behaviour of the package when the tag is off.
+
+import (
+	"sort"
+	"sync/atomic"
+	"time"
+
+	flow "github.com/tendermint/tendermint/libs/flowrate"
+	"github.com/tendermint/tendermint/libs/service"
+	"github.com/tendermint/tendermint/p2p"
+	sm "github.com/tendermint/tendermint/state"
+)
+
+type verifIdle struct{ service.BaseService }
+
+// VerifSyncMode marks the reactor's pool as running (so sendRequest/sendError deliver) without
+// starting makeRequestersRoutine, and disables the wall-clock peer timeout.
+func VerifSyncMode(bcR *BlockchainReactor) {
+	idle := &verifIdle{}
+	idle.BaseService = *service.NewBaseService(nil, "idle", idle)
+	l := bcR.pool.Logger
+	bcR.pool.BaseService = *service.NewBaseService(l, "BlockPool", idle)
+	if err := bcR.pool.Start(); err != nil {
+		panic(err)
+	}
+	bcR.pool.startTime = time.Now()
+}
+
+// VerifSetPeerTimeout overrides the package's peer timeout (a var "so we can override with tests").
+func VerifSetPeerTimeout(d time.Duration) { peerTimeout = d }
+
+// VerifPool returns the reactor's pool.
+func VerifPool(bcR *BlockchainReactor) *BlockPool { return bcR.pool }
+
+// VerifMakeNextRequester is makeNextRequester without request.Start().
+func (pool *BlockPool) VerifMakeNextRequester() int {
+	pool.mtx.Lock()
+	defer pool.mtx.Unlock()
+
+	nextHeight := pool.height + pool.requestersLen()
+	if nextHeight > pool.maxPeerHeight {
+		return len(pool.requesters)
+	}
+	request := newBPRequester(pool, nextHeight)
+	pool.requesters[nextHeight] = request
+	atomic.AddInt32(&pool.numPending, 1)
+	return len(pool.requesters)
+}
+
+type verifSnap struct {
+	n int32
+	m *flow.Monitor
+	t *time.Timer
+}
+
+// VerifPick is one round of PICK_PEER_LOOP whose map iteration yields `want` first among the
+// available peers: pickIncrAvailablePeer is repeated (undoing its effect on other peers) until it
+// returns `want`; then `bpr.peerID = peer.id` and sendRequest, as requestRoutine does.
+func (pool *BlockPool) VerifPick(height int64, want p2p.ID) string {
+	pool.mtx.Lock()
+	r := pool.requesters[height]
+	snaps := map[p2p.ID]verifSnap{}
+	for id, p := range pool.peers {
+		snaps[id] = verifSnap{p.numPending, p.recvMonitor, p.timeout}
+	}
+	pool.mtx.Unlock()
+	if r == nil {
+		return "noreq"
+	}
+	if r.getPeerID() != "" {
+		return "busy"
+	}
+	sawOther := false
+	for i := 0; i < 400; i++ {
+		peer := pool.pickIncrAvailablePeer(height)
+		if peer == nil {
+			if sawOther {
+				return "ineligible"
+			}
+			return "none"
+		}
+		if peer.id == want {
+			r.mtx.Lock()
+			r.peerID = peer.id
+			r.mtx.Unlock()
+			pool.sendRequest(height, peer.id)
+			return "picked"
+		}
+		sawOther = true
+		pool.mtx.Lock()
+		s := snaps[peer.id]
+		if peer.timeout != nil && peer.timeout != s.t {
+			peer.timeout.Stop()
+		}
+		peer.numPending, peer.recvMonitor, peer.timeout = s.n, s.m, s.t
+		pool.mtx.Unlock()
+	}
+	return "ineligible"
+}
+
+// VerifRStep is WAIT_LOOP's `case peerID := <-bpr.redoCh`.
+func (pool *BlockPool) VerifRStep(height int64) string {
+	pool.mtx.Lock()
+	r := pool.requesters[height]
+	pool.mtx.Unlock()
+	if r == nil {
+		return "noreq"
+	}
+	if r.getPeerID() == "" {
+		return "idle"
+	}
+	select {
+	case peerID := <-r.redoCh:
+		if peerID == r.peerID {
+			r.reset()
+			return "reset"
+		}
+		return "stale"
+	default:
+		return "empty"
+	}
+}
+
+// VerifRTimeout is WAIT_LOOP's `case <-to.C`.
+func (pool *BlockPool) VerifRTimeout(height int64) string {
+	pool.mtx.Lock()
+	r := pool.requesters[height]
+	pool.mtx.Unlock()
+	if r == nil {
+		return "noreq"
+	}
+	if r.getPeerID() == "" {
+		return "idle"
+	}
+	r.reset()
+	return "reset"
+}
+
+// VerifPeerTimeout fires the peer's timeout callback.
+func (pool *BlockPool) VerifPeerTimeout(id p2p.ID) bool {
+	pool.mtx.Lock()
+	peer := pool.peers[id]
+	pool.mtx.Unlock()
+	if peer == nil {
+		return false
+	}
+	peer.onTimeout()
+	return true
+}
+
+// VerifReq / VerifPeer / VerifView: a copy of the pool's bookkeeping.
+type VerifReq struct {
+	Height int64
+	Peer   p2p.ID
+	Hash   []byte
+	PSHash []byte
+}
+type VerifPeer struct {
+	ID         p2p.ID
+	Base       int64
+	Height     int64
+	NumPending int32
+}
+type VerifView struct {
+	Height        int64
+	NumPending    int32
+	MaxPeerHeight int64
+	Reqs          []VerifReq
+	Peers         []VerifPeer
+}
+
+func (pool *BlockPool) VerifView() VerifView {
+	pool.mtx.Lock()
+	defer pool.mtx.Unlock()
+	v := VerifView{Height: pool.height, NumPending: atomic.LoadInt32(&pool.numPending), MaxPeerHeight: pool.maxPeerHeight}
+	for h, r := range pool.requesters {
+		q := VerifReq{Height: h, Peer: r.getPeerID()}
+		if b := r.getBlock(); b != nil {
+			q.Hash = b.Hash()
+			q.PSHash = b.MakePartSet(65536).Header().Hash
+		}
+		v.Reqs = append(v.Reqs, q)
+	}
+	sort.Slice(v.Reqs, func(i, j int) bool { return v.Reqs[i].Height < v.Reqs[j].Height })
+	for _, p := range pool.peers {
+		v.Peers = append(v.Peers, VerifPeer{p.id, p.base, p.height, p.numPending})
+	}
+	sort.Slice(v.Peers, func(i, j int) bool { return v.Peers[i].ID < v.Peers[j].ID })
+	return v
+}
+
+// VerifPeerError is one value taken from errorsCh.
+type VerifPeerError struct {
+	PeerID p2p.ID
+	Err    error
+}
+
+// VerifDrain empties requestsCh and errorsCh (what poolRoutine's helper goroutine consumes).
+func VerifDrain(bcR *BlockchainReactor) (reqs []BlockRequest, errs []VerifPeerError) {
+	for {
+		select {
+		case r := <-bcR.requestsCh:
+			reqs = append(reqs, r)
+		case e := <-bcR.errorsCh:
+			errs = append(errs, VerifPeerError{e.peerID, e.err})
+		default:
+			return
+		}
+	}
+}
+
+// VerifRunPoolRoutine runs the real poolRoutine, starting from `state`, on a reactor shell that
+// shares bcR's pool, stores, executor and switch, until `until()` holds (polled) or maxWait
+// elapses; then stops the shell and waits for poolRoutine to return. The shell gets its own (never
+// written) request/error channels: poolRoutine's helper goroutine cannot be joined, and must not
+// take values from the pool's channels after this function has returned (the caller drains those).
+func VerifRunPoolRoutine(bcR *BlockchainReactor, state sm.State, until func() bool, maxWait time.Duration) (timedOut bool) {
+	shell := &BlockchainReactor{
+		initialState: state,
+		blockExec:    bcR.blockExec,
+		store:        bcR.store,
+		pool:         bcR.pool,
+		fastSync:     false,
+		requestsCh:   make(chan BlockRequest),
+		errorsCh:     make(chan peerError),
+	}
+	shell.BaseReactor = *p2p.NewBaseReactor("BlockchainReactor", shell)
+	shell.BaseService.Logger = bcR.Logger
+	shell.SetSwitch(bcR.Switch)
+	if err := shell.Start(); err != nil {
+		panic(err)
+	}
+	done := make(chan struct{})
+	go func() {
+		defer close(done)
+		shell.poolRoutine(false)
+	}()
+	deadline := time.Now().Add(maxWait)
+	for !until() {
+		if time.Now().After(deadline) {
+			timedOut = true
+			break
+		}
+		time.Sleep(500 * time.Microsecond)
+	}
+	_ = shell.Stop()
+	<-done
+	return timedOut
+}
